@@ -41,6 +41,9 @@ type Case struct {
 	// Lead is the number of empty lines in front of the header lines (the header block is then
 	// empty and everything transmitted is body).
 	Lead int `json:"lead,omitempty"`
+	// LongEnv: the client greets with a 200-character host name and sends from an address of about
+	// 270 characters, so that the trace headers the server puts in front are long.
+	LongEnv bool `json:"long_envelope,omitempty"`
 }
 
 var kinds = []string{"empty", "dot", "dotdot", "dottext", "text", "text", "text", "8bit", "nul", "barecr", "endcr", "crcr", "rand", "long"}
@@ -147,6 +150,7 @@ var prop = hx.Prop[Case]{
 			NRcpt:   rapid.SampledFrom([]int{1, 1, 2, 3}).Draw(t, "nrcpt"),
 		}
 		c.Lead = rapid.SampledFrom([]int{0, 0, 0, 0, 1, 3}).Draw(t, "lead")
+		c.LongEnv = rapid.IntRange(0, 5).Draw(t, "longenv") == 0
 		if rapid.IntRange(0, 3).Draw(t, "limited") == 0 {
 			d := rapid.SampledFrom([]int{-5000, -700, -100, -1, 0, 1, 100}).Draw(t, "limit_delta")
 			c.Limit = &d
@@ -219,6 +223,9 @@ func run(c Case) *hx.Outcome {
 	wantFrom, wantSubject := "a@a.test", "c02"
 	if c.Lead > 0 {
 		wantFrom, wantSubject = "s@a.test", "" // no header block: the envelope sender stands in
+		if c.LongEnv {
+			wantFrom = strings.Repeat("s", 64) + "@" + strings.Repeat(strings.Repeat("h", 48)+".", 4) + "example"
+		}
 		o.Class("message starts with an empty line")
 	}
 	wire, tx := hx.DotStuff(data)
@@ -248,7 +255,14 @@ func run(c Case) *hx.Outcome {
 		o.Failf(pid+":harness", "dial: %v", err)
 		return o
 	}
-	cmds := []string{"EHLO c.test", "MAIL FROM:<s@a.test>", "RCPT TO:<box@a.test>"}
+	helo, sender := "c.test", "s@a.test"
+	if c.LongEnv {
+		label := strings.Repeat("h", 48)
+		helo = label + "." + label + "." + label + "." + label + ".test"
+		sender = strings.Repeat("s", 64) + "@" + label + "." + label + "." + label + "." + label + ".example"
+		o.Class("long envelope (trace headers over 512 bytes)")
+	}
+	cmds := []string{"EHLO " + helo, "MAIL FROM:<" + sender + ">", "RCPT TO:<box@a.test>"}
 	var toList []*mailAddr
 	toList = append(toList, &mailAddr{Address: "box@a.test"})
 	for i := 1; i < c.NRcpt; i++ {
@@ -302,7 +316,7 @@ func run(c Case) *hx.Outcome {
 		}
 		// every recipient's copy must carry the complete transmitted data
 		model.Add(&hx.EMsg{Mailbox: name, From: (&hx.Addr{Address: wantFrom}).Mail(), To: toList,
-			Subject: wantSubject, Sender: "s@a.test", Helo: "c.test", Data: tx, NotBefo: t0, NotAfter: time.Now()})
+			Subject: wantSubject, Sender: sender, Helo: helo, Data: tx, NotBefo: t0, NotAfter: time.Now()})
 	}
 	if err := hx.CmpE2E(w.Store, model, nil); err != nil {
 		o.Failf(pid+":store-content", "%v", err)
